@@ -35,6 +35,10 @@ def jobs(tier, seed):
     # zone of a recorded defect (F20): the looping transition forks to a single-inbound task outside the loop
     js += batches("conduct", scale(tier, 40, 600), scale(tier, 20, 100), gen="loop", P=dict(P, p_loop_fork=1.0, p_loop_fork_single=1.0),
                   gseed=seed + 2, scheds=2, lazy=[0, 50], p_fail=0.08, name="loop-fork-single-inbound")
+    # ... and its lawful neighbour: the outside task is multi-referenced, so every pass gets a route of its own and
+    # executions of several passes overlap without colliding
+    js += batches("conduct", scale(tier, 40, 600), scale(tier, 20, 100), gen="loop", P=dict(P, p_loop_fork=1.0),
+                  gseed=seed + 4, scheds=3, lazy=[0, 50, 70], p_fail=0.05, name="loop-fork-split")
     return js
 
 
